@@ -93,6 +93,10 @@ def IMPLIES(a, b):
     return OR(NOT(a), b)
 
 
+import os as _os
+_ASSUME_ON = _os.environ.get('VF_NO_ASSUME') != '1'
+
+
 def ITE(c, a, b):
     """if-then-else over raw scalars (bool/int python or z3)"""
     if c is True:
@@ -110,7 +114,7 @@ def ITE(c, a, b):
         if a is False and b is True:
             return NOT(c)
         return z3.If(c, B(a), B(b))
-    if is_sym(c) and (is_sym(a) or is_sym(b)):
+    if _ASSUME_ON and is_sym(c) and (is_sym(a) or is_sym(b)):
         # counters updated under one guard (x += 1 ... x -= 1 inside `if g:`) would otherwise pile up as
         # If(g, If(g, x+1, x)-1, If(g, x+1, x)): specialise both arms on the guard first (bounded depth)
         a2, b2 = _assume(a, c, True, 2), _assume(b, c, False, 2)
